@@ -544,10 +544,14 @@ func noncanonRun(req wrapReq, resp *drv.Response) error {
 			lf.Set(nv)
 			// Permissive: where gnark's honest hint function refuses an operand >= p (a property of the test engine's solver, not a
 			// constraint), a generic hint supplies the quotient / remainder a prover could supply, so that only constraints decide
-			cfg := &engine.Config{Mode: engine.Native, RecordEvts: locEvents, Permissive: true}
+			md := engine.Native
+			if req.Mode != "" {
+				md = modeOf(req.Mode)
+			}
+			cfg := &engine.Config{Mode: md, RecordEvts: locEvents, Permissive: true}
 			err := hc.RunVerifier(cfg, l, l)
 			out := hc.Outcome(err)
-			if out != "accept" && len(only) > 0 {
+			if out != "accept" && len(only) > 0 && md == engine.Native {
 				// a targeted leaf (one the canonical-set trace does not show as checked): also with the other limb pair a prover
 				// may supply where the honest split refuses, (0, x)
 				cfg = &engine.Config{Mode: engine.Native, RecordEvts: locEvents, Permissive: true, PermissiveFlavor: 1}
@@ -555,12 +559,13 @@ func noncanonRun(req wrapReq, resp *drv.Response) error {
 				out = hc.Outcome(err)
 			}
 			lf.Set(old)
-			resp.Count(fmt.Sprintf("noncanon/%s/%s/%s", req.Instance, lf.Path, ks), false)
+			resp.Count(fmt.Sprintf("noncanon/%s/%s/%s/%s", req.Instance, req.Mode, lf.Path, ks), false)
 			if out == "accept" {
 				resp.Violate(fmt.Sprintf("c17/noncanon/accept cls=%s", classOf(lf.Path)),
-					fmt.Sprintf("%s k=%d: %s given as value + %s*p (%v) is accepted: the proof has a second encoding", req.Instance, l.K, lf.Path, ks, nv),
+					fmt.Sprintf("%s k=%d%s: %s given as value + %s*p (%v) is accepted: the proof has a second encoding", req.Instance, l.K, map[bool]string{true: " [range-check mechanism: " + req.Mode + "]", false: ""}[req.Mode != "" && req.Mode != "native"], lf.Path, ks, nv),
 					map[string]any{"instance": req.Instance, "k": l.K, "path": lf.Path, "ks": ks})
-			} else if loc := failureLocation(cfg); loc != "sweep" {
+			} else if loc := failureLocation(cfg); loc != "sweep" && md == engine.Native {
+				// (under the commit mechanism the sweep's checks are delivered by the deferred flush, after everything else)
 				resp.Inc("rejected_after_sweep", 1)
 			}
 			if len(resp.Samples) < 3 {
